@@ -124,6 +124,13 @@ def flow() -> Route:
     return Route(nlri, AttributeCollection(), nexthop=IP.NoNextHop)
 
 
+def _check_flow_prefix(data: str, netmask: int, offset: int, bits: int) -> None:
+    if not 0 <= netmask <= bits:
+        raise ValueError(f"'{data}' is not a valid prefix\n  The prefix length must be 0 to {bits}")
+    if not 0 <= offset <= netmask:
+        raise ValueError(f"'{data}' is not a valid prefix\n  The offset must be 0 to the prefix length")
+
+
 def source(tokeniser: 'Tokeniser') -> Generator[Flow4Source | Flow6Source, None, None]:
     """Update source to handle both IPv4 and IPv6 flows."""
     data: str = tokeniser()
@@ -133,16 +140,22 @@ def source(tokeniser: 'Tokeniser') -> Generator[Flow4Source | Flow6Source, None,
         netmask: str
         ip, netmask = data.split('/')
         raw: bytes = b''.join(bytes([int(_)]) for _ in ip.split('.'))
+        _check_flow_prefix(data, int(netmask), 0, IPv4.BITS)
         yield Flow4Source.make_prefix4(raw, int(netmask))
     # Check if it's IPv6 without an offset
     elif data.count(':') >= IPv6.COLON_MIN and data.count('/') == SINGLE_SLASH:
         ip, netmask = data.split('/')
+        _check_flow_prefix(data, int(netmask), 0, IPv6.BITS)
         yield Flow6Source.make_prefix6(IP.pton(ip), int(netmask), 0)
     # Check if it's IPv6 with an offset
     elif data.count(':') >= IPv6.COLON_MIN and data.count('/') == DOUBLE_SLASH:
         offset: str
         ip, netmask, offset = data.split('/')
+        _check_flow_prefix(data, int(netmask), int(offset), IPv6.BITS)
         yield Flow6Source.make_prefix6(IP.pton(ip), int(netmask), int(offset))
+    else:
+        # silently yielding nothing would drop the component and announce a broader rule
+        raise ValueError(f"'{data}' is not a valid source prefix\n  Format: <ipv4>/<mask>, <ipv6>/<mask> or <ipv6>/<mask>/<offset>")
 
 
 def destination(tokeniser: 'Tokeniser') -> Generator[Flow4Destination | Flow6Destination, None, None]:
@@ -154,16 +167,22 @@ def destination(tokeniser: 'Tokeniser') -> Generator[Flow4Destination | Flow6Des
         netmask: str
         ip, netmask = data.split('/')
         raw: bytes = b''.join(bytes([int(_)]) for _ in ip.split('.'))
+        _check_flow_prefix(data, int(netmask), 0, IPv4.BITS)
         yield Flow4Destination.make_prefix4(raw, int(netmask))
     # Check if it's IPv6 without an offset
     elif data.count(':') >= IPv6.COLON_MIN and data.count('/') == SINGLE_SLASH:
         ip, netmask = data.split('/')
+        _check_flow_prefix(data, int(netmask), 0, IPv6.BITS)
         yield Flow6Destination.make_prefix6(IP.pton(ip), int(netmask), 0)
     # Check if it's IPv6 with an offset
     elif data.count(':') >= IPv6.COLON_MIN and data.count('/') == DOUBLE_SLASH:
         offset: str
         ip, netmask, offset = data.split('/')
+        _check_flow_prefix(data, int(netmask), int(offset), IPv6.BITS)
         yield Flow6Destination.make_prefix6(IP.pton(ip), int(netmask), int(offset))
+    else:
+        # silently yielding nothing would drop the component and announce a broader rule
+        raise ValueError(f"'{data}' is not a valid destination prefix\n  Format: <ipv4>/<mask>, <ipv6>/<mask> or <ipv6>/<mask>/<offset>")
 
 
 # Expressions
